@@ -3,6 +3,7 @@ from ..mesh.datatypes import *
 from ..utils import PriorityQueue
 from ..utils.argument_check import *
 from ..mesh.mesh_attributes import _BaseAttribute
+import numpy as np
 
 def build_path(mesh : Mesh, paths):
     path_mesh = PolyLine()
@@ -49,7 +50,7 @@ def shortest_path(mesh : Mesh, start : int, targets : list, weights = "length", 
         If export_path_mesh is set to True, also returns a Polyline
     """
 
-    if isinstance(targets, int):
+    if isinstance(targets, (int, np.integer)): # a numpy integer is a single target too
         targets = {targets}
     else:
         targets = set(targets)
